@@ -23,14 +23,14 @@ Section ScaleLaws.
   Hypothesis rnd_pos : forall x, 0 < x -> 0 < rnd x.
   Hypothesis rnd_int : forall k, small_int k -> rnd (inject_Z k) == inject_Z k.
 
-  (* "Scaled magnitudes lie in [0,1]": for every value and every (min, max), provided the one
-     int64 operation of Scale (`min + 1` for a degenerate range) does not wrap, i.e. unless
-     min = max = MaxInt64. *)
-  Theorem C14_scale_unit : forall v mn mx, no_wrap mn mx -> 0 <= scale m rnd v mn mx <= 1.
+  (* "Scaled magnitudes lie in [0,1]": for every value and every (min, max) — no guard: after
+     the repair C14-scale-maxint the one int64 operation of Scale (`min + 1` for a degenerate
+     range) is not performed when it would wrap. *)
+  Theorem C14_scale_unit : forall v mn mx, 0 <= scale m rnd v mn mx <= 1.
   Proof. exact (scale_unit m rnd m_mono rnd_mono rnd_0 rnd_1 rnd_pos). Qed.
 
   (* "... and are monotone in the value." *)
-  Theorem C14_scale_mono : forall v v' mn mx, no_wrap mn mx -> (v <= v')%Z ->
+  Theorem C14_scale_mono : forall v v' mn mx, (v <= v')%Z ->
     scale m rnd v mn mx <= scale m rnd v' mn mx.
   Proof. exact (scale_mono m rnd m_mono rnd_mono rnd_0 rnd_1 rnd_pos). Qed.
 
@@ -62,7 +62,7 @@ Print Assumptions C14_length_mono.
 Print Assumptions C14_scale_keys_shape.
 
 (* the hypotheses are satisfiable: exact arithmetic with the linear mapper *)
-Example C14_scale_instance : forall v mn mx, no_wrap mn mx ->
+Example C14_scale_instance : forall v mn mx,
   0 <= scale inject_Z (fun q => q) v mn mx <= 1.
 Proof.
   intros. apply (C14_scale_unit inject_Z (fun q => q)); try assumption.
@@ -73,13 +73,12 @@ Proof.
   - intros; assumption.
 Qed.
 
-(* the guard is needed: at min = max = MaxInt64 the degenerate range wraps and a monotone
-   log-like mapper yields a negative magnitude (recorded finding C14-scale-maxint) *)
-Theorem C14_scale_unit_wrap_refuted :
-  exists m, (forall a b, (a <= b)%Z -> m a <= m b) /\
-            scale m (fun q => q) max_int64 max_int64 max_int64 < 0.
-Proof. exact scale_unit_wrap_refuted. Qed.
-Print Assumptions C14_scale_unit_wrap_refuted.
+(* the former witness against the unguarded law (min = max = MaxInt64 under a log-like mapper,
+   finding C14-scale-maxint) now lies in [0,1] *)
+Example C14_scale_maxint_repaired :
+  let m := fun x => if (x <=? 1)%Z then 0 else inject_Z (Z.log2 x) + (1 # 2) in
+  scale m (fun q => q) max_int64 max_int64 max_int64 == 1 # 2.
+Proof. vm_compute. reflexivity. Qed.
 
 (* ------------------------------------------------------------------------------------------ *)
 (* Translator obligations, by computation on the regenerated tables (Gen/GenPalette.v): the
@@ -101,10 +100,11 @@ Print Assumptions C14_palette_ok.
    (fixes/C14-bar-zero-max.patch) barWriteRunes and BarWriteStacked return for every value,
    maximum and width; the repair changes exactly the maxima <= 0, where the pinned code divides
    by zero (maximum 0). *)
-Theorem C14_bar_total : forall col uni c val maxVal maxLen vals,
-  bar_runes c val maxVal maxLen <> Panic /\ bar_stacked col uni maxVal maxLen vals <> Panic /\
-  (0 < maxVal -> bar_runes_unrepaired c val maxVal maxLen = bar_runes c val maxVal maxLen)%Z /\
-  (maxVal = 0%Z -> bar_runes_unrepaired c val maxVal maxLen = Panic).
+Theorem C14_bar_total : forall col uni c val maxVal maxLen limit vals,
+  bar_runes c val maxVal maxLen limit <> Panic /\ bar_stacked col uni maxVal maxLen vals <> Panic /\
+  ((0 <= maxLen)%Z ->
+   (0 < maxVal -> bar_runes_unrepaired c val maxVal maxLen = bar_runes c val maxVal maxLen maxLen)%Z /\
+   (maxVal = 0%Z -> bar_runes_unrepaired c val maxVal maxLen = Panic)).
 Proof.
   intros. split. apply bar_runes_total. split. apply bar_stacked_total. apply bar_runes_repair.
 Qed.
@@ -112,29 +112,34 @@ Print Assumptions C14_bar_total.
 
 (* "bars never exceed their maximum width and grow with the value": integer bars (stacked
    segments) ... *)
-Theorem C14_bar_bounds : forall c v v' maxVal maxLen s s', (0 <= maxLen)%Z ->
-  bar_runes c v maxVal maxLen = Ok s -> bar_runes c v' maxVal maxLen = Ok s' ->
-  (0 <= lenZ s <= maxLen)%Z /\ ((v <= v')%Z -> (lenZ s <= lenZ s')%Z).
+Theorem C14_bar_bounds : forall c v v' maxVal maxLen limit s s', (0 <= maxLen)%Z ->
+  bar_runes c v maxVal maxLen limit = Ok s -> bar_runes c v' maxVal maxLen limit = Ok s' ->
+  (0 <= lenZ s <= maxLen)%Z /\ (lenZ s <= Z.max 0 limit)%Z /\ ((v <= v')%Z -> (lenZ s <= lenZ s')%Z).
 Proof.
-  intros c v v' maxVal maxLen s s' H E E'. split. eapply bar_runes_bounds; eauto.
+  intros c v v' maxVal maxLen limit s s' H E E'.
+  destruct (bar_runes_bounds c v maxVal maxLen limit s H E) as [A B]. split. assumption. split. assumption.
   intros Hv. eapply bar_runes_mono; eauto.
 Qed.
 Print Assumptions C14_bar_bounds.
 
-(* ... a whole stacked bar: its visible width is the sum of its segments and stays within the
-   width when the values are non-negative and the maximum bounds their total (BarGraph keeps the
-   maximum >= every total) ... *)
+(* ... a whole stacked bar never exceeds the width, for ALL integers — any values (negative
+   ones included), any maximum — after the repair C14-stacked-negative (each segment is cut to
+   what is left of the bar) ... *)
 Theorem C14_bar_stacked_bounds : forall col uni maxVal maxLen vals s, (0 <= maxLen)%Z ->
-  Forall (fun v => 0 <= v)%Z vals -> (fold_right Z.add 0 vals <= maxVal)%Z ->
   bar_stacked col uni maxVal maxLen vals = Ok s -> (0 <= str_len col s <= maxLen)%Z.
 Proof. exact bar_stacked_bounds. Qed.
 Print Assumptions C14_bar_stacked_bounds.
-(* ... and the restriction to non-negative values is necessary: recorded finding
-   C14-stacked-negative (the full statement of the property is refuted by this witness). *)
-Theorem C14_bar_stacked_bounds_refuted :
-  exists s, bar_stacked false false 15 50 [-5; 10; 10]%Z = Ok s /\ (50 < str_len false s)%Z.
-Proof. exact bar_stacked_bounds_refuted. Qed.
-Print Assumptions C14_bar_stacked_bounds_refuted.
+(* ... and the cut changes nothing in the regular case: with non-negative values whose total the
+   maximum bounds, the visible width is the sum of the proportional segments floor(v*len/max). *)
+Theorem C14_bar_stacked_proportional : forall col uni maxVal maxLen vals s, (0 <= maxLen)%Z -> (0 < maxVal)%Z ->
+  Forall (fun v => 0 <= v)%Z vals -> (fold_right Z.add 0 vals <= maxVal)%Z ->
+  bar_stacked col uni maxVal maxLen vals = Ok s -> str_len col s = seg_sum maxVal maxLen vals.
+Proof. exact bar_stacked_proportional. Qed.
+Print Assumptions C14_bar_stacked_proportional.
+(* the former witness against the width law (finding C14-stacked-negative) *)
+Example C14_stacked_negative_repaired :
+  exists s, bar_stacked false false 15 50 [-5; 10; 10]%Z = Ok s /\ str_len false s = 50%Z.
+Proof. eexists. split. vm_compute. reflexivity. vm_compute. reflexivity. Qed.
 
 Section RenderLaws.
   Variable m : Z -> Q.
@@ -163,7 +168,7 @@ Section RenderLaws.
   (* "heatmap and sparkline rows contain one cell per displayed column": a heatmap row is the
      key, at least one blank, then cells of total visible width = number of values; a sparkline
      is one rune per value.  (Every palette index is in range: no Panic.) *)
-  Theorem C14_rows_one_cell_per_column : forall col uni mn mx, no_wrap mn mx ->
+  Theorem C14_rows_one_cell_per_column : forall col uni mn mx,
     (forall w name vals, exists cells,
        heat_row col uni m rnd w mn mx name vals =
          Ok (Z.max w (str_len col name),
@@ -172,29 +177,29 @@ Section RenderLaws.
     (forall vals, exists cells,
        rconcat (fun v => spark_write uni rnd (scale m rnd v mn mx)) vals = Ok cells /\ lenZ cells = lenZ vals).
   Proof.
-    intros col uni mn mx H. split.
-    - intros. apply (heat_row_cells col uni m rnd m_mono rnd_mono rnd_0 rnd_1 rnd_pos rnd_int). assumption.
-    - apply (spark_cells uni m rnd m_mono rnd_mono rnd_0 rnd_1 rnd_pos rnd_int). assumption.
+    intros col uni mn mx. split.
+    - intros. apply (heat_row_cells col uni m rnd m_mono rnd_mono rnd_0 rnd_1 rnd_pos rnd_int).
+    - apply (spark_cells uni m rnd m_mono rnd_mono rnd_0 rnd_1 rnd_pos rnd_int).
   Qed.
 
   (* "every renderer completes without panicking": for every aggregator state (any keys, any
-     values; min/max not both MaxInt64), any limits >= 0, any scaler keys and formatter, colour
+     values), any limits >= 0, any scaler keys and formatter, colour
      and unicode on or off — heatmap (header loop with fuel colCount + 1: never exhausted, after
      the repair of #26), sparkline (after #16), histogram call histories (after #16), bar graph
      call histories stacked or grouped (after #15).  DataTable and TableWriter are total
      functions in the model (no partial operation occurs in them). *)
   Theorem C14_render_total : forall col uni keys fmt,
-    (forall rlim clim h tm a, no_wrap (a_min a) (a_max a) ->
+    (forall rlim clim h tm a,
        exists st, heat_write_table col uni m rnd keys fmt rlim clim h tm a = Some (Ok st)) /\
-    (forall rlim clim st a, no_wrap (a_min a) (a_max a) ->
+    (forall rlim clim st a,
        exists st', spark_write_table col uni m rnd fmt rlim clim st a = Ok st') /\
     (forall sb ops st, exists st', histo_run col uni m rnd fmt sb st ops = Ok st') /\
     (forall b tm ks, exists st', bg_set_keys col uni b tm ks = Ok st') /\
     (forall size stacked ops st, exists st', bg_run col uni m rnd fmt size stacked st ops = Ok st').
   Proof.
     intros col uni keys fmt. split; [|split; [|split; [|split]]].
-    - intros. apply (heat_write_table_total col uni m rnd keys fmt m_mono rnd_mono rnd_0 rnd_1 rnd_pos rnd_int). assumption.
-    - intros. apply (spark_write_table_total col uni m rnd fmt m_mono rnd_mono rnd_0 rnd_1 rnd_pos rnd_int). assumption.
+    - intros. apply (heat_write_table_total col uni m rnd keys fmt m_mono rnd_mono rnd_0 rnd_1 rnd_pos rnd_int).
+    - intros. apply (spark_write_table_total col uni m rnd fmt m_mono rnd_mono rnd_0 rnd_1 rnd_pos rnd_int).
     - intros. apply histo_run_total.
     - intros. apply bg_set_keys_total.
     - intros. apply bg_run_total.
